@@ -383,6 +383,102 @@ def boundary_shapes() -> List[Shape]:
     return S
 
 
+def random_shapes(n: int, seed: int, max_funs: int = 8) -> List[Shape]:
+    """Random well-formed pipelines (thorough tier): acyclic call graphs over up to `max_funs`
+    functions, bodies of up to 3 statements (plain call, higher-order reference, keep with every
+    argument form, data functions, loads of paths produced earlier in program order), variables
+    of random tracked types.  Deterministic in (n, seed)."""
+    import random
+    rnd = random.Random(seed * 7919 + 13)
+    res: List[Shape] = []
+    types = ["int", "str", "bool", "tuple", "list", "dict", "float", "date"]
+    attempts = 0
+    while len(res) < n and attempts < 50 * n:
+        attempts += 1
+        k = rnd.randint(3, max_funs)
+        funs = ["f%d" % (i + 1) for i in range(k)]
+        stmts: Dict[str, List[Dict[str, str]]] = {f: [] for f in funs}
+        dpath: Dict[str, str] = {}
+        takes_arg: Dict[str, str] = {}      # function -> argument form of its (single) keep site
+        used_plain = set()
+        npath = [0]
+
+        def newpath() -> str:
+            npath[0] += 1
+            return "/r%d/p%d" % (len(res), npath[0]) if rnd.random() < 0.7 else "/r%d/d/e/p%d" % (len(res), npath[0])
+        for (i, f) in enumerate(funs[:-1]):
+            later = funs[i + 1:]
+            for _ in range(rnd.randint(0 if i else 1, 3)):
+                g = rnd.choice(later)
+                kind = rnd.choice(["call", "call", "keep", "keep", "ref"])
+                if g in takes_arg:
+                    continue                      # argument-taking functions have exactly one site
+                if kind == "keep":
+                    a = rnd.choice(["none", "none", "const", "kw", "default", "runtime"])
+                    if a != "none" and (g in used_plain or g in dpath or any(s["g"] == g for ss in stmts.values() for s in ss)):
+                        a = "none"
+                    if a != "none":
+                        takes_arg[g] = a
+                    stmts[f].append(keep(newpath(), g, a, lay=rnd.choice(["1", "1", "2", "3"])))
+                else:
+                    used_plain.add(g)
+                    stmts[f].append(stmt(kind, g))
+        for f in funs[1:]:
+            if f not in takes_arg and rnd.random() < 0.3:
+                dpath[f] = newpath()
+        root = funs[0]
+        if rnd.random() < 0.4 and root not in takes_arg:
+            dpath[root] = newpath()
+        # reachable part only
+        reach = {root}
+        todo = [root]
+        while todo:
+            x = todo.pop()
+            for s_ in stmts[x]:
+                if s_["g"] not in reach:
+                    reach.add(s_["g"])
+                    todo.append(s_["g"])
+        funs2 = [f for f in funs if f in reach]
+        if len(funs2) < 3:
+            continue
+        st2 = {f: stmts[f] for f in funs2}
+        # loads: of a path produced earlier in program order (depth-first), placed after it
+        order: List[str] = []
+
+        def walk(f: str, seen: List[str]) -> None:
+            for s_ in st2[f]:
+                if s_["k"] in ("call", "ref", "keep"):
+                    walk(s_["g"], seen)
+                    p = s_["p"] if s_["k"] == "keep" else dpath.get(s_["g"], "")
+                    if p:
+                        seen.append(p)
+        produced: List[str] = []
+        walk(root, produced)
+        if produced and rnd.random() < 0.5:
+            st2[root] = st2[root] + [load(rnd.choice(produced))]
+        reads: Dict[str, List[str]] = {}
+        vtype: Dict[str, str] = {}
+        for f in funs2:
+            if rnd.random() < 0.6:
+                v = "v%d" % (len(vtype) + 1)
+                vtype[v] = rnd.choice(types)
+                reads[f] = [v]
+                if rnd.random() < 0.2 and len(vtype) > 1:
+                    reads[f].append(rnd.choice(sorted(vtype)))
+        try:
+            sh = Shape("rnd%d_%d" % (seed, len(res)), root, st2, reads=reads, vtype=vtype,
+                       dpath={f: p for (f, p) in dpath.items() if f in funs2},
+                       root_path="/r%d/root_out" % len(res), tags=["random"])
+        except AssertionError:
+            continue
+        # no kept path may be a prefix of another (by construction: distinct leaves), no duplicates
+        ps = sh.kept_paths()
+        if len(ps) != len(set(ps)) or not ps:
+            continue
+        res.append(sh)
+    return res
+
+
 def quick_shapes() -> List[Shape]:
     return core_shapes() + vtype_shapes() + load_shapes()[:3]
 
